@@ -48,6 +48,7 @@ func init() {
 		Extras: []core.Extra{
 			{Name: "all-graphs-small", Run: exhaustiveGraphs},
 			{Name: "all-small-item-lists", Run: exhaustiveItems},
+			{Name: "type-parameter-matrix", Run: typeMatrix},
 		},
 		Assumptions: []string{
 			"Go int treated as unbounded (no sums near 2^63); math.MaxInt only as the initial minDiff",
@@ -475,6 +476,7 @@ func impl(c core.Case) []string {
 	var gc *graphCase
 	lg := &ledger{}
 	fl := &inputFlag{}
+	var hist *algz.Graph[int] // `graphh` cases: ONE Graph value through Init / rebuild rounds
 	return core.RunOps(c,
 		func(hdr []string) string {
 			if len(hdr) == 0 {
@@ -499,6 +501,12 @@ func impl(c core.Case) []string {
 					seen[k] = true
 					keys = append(keys, k)
 				}
+			case "graphh":
+				if len(hdr) != 1 {
+					kind = ""
+					return "bad-op"
+				}
+				hist = &algz.Graph[int]{}
 			case "graph":
 				var ok bool
 				if gc, ok = parseGraph(hdr[1:]); !ok {
@@ -513,7 +521,12 @@ func impl(c core.Case) []string {
 		},
 		func(t []string) string {
 			lg.line++
-			o := implStep(kind, items, keys, gc, lg, fl, t)
+			var o string
+			if kind == "graphh" {
+				o = histStep(hist, lg, t)
+			} else {
+				o = implStep(kind, items, keys, gc, lg, fl, t)
+			}
 			// results ledger: everything returned by EARLIER calls of this case is unchanged;
 			// input windows: no call wrote into its input or into the memory around it
 			if msg := lg.verify(); msg != "" {
@@ -540,6 +553,30 @@ func implStep(kind string, items []item, keys []int, gc *graphCase, lg *ledger, 
 		sel := runKnap(items, W, brk, fl)
 		lg.keepItems(sel)
 		return showIDs(sel)
+	case kind == "dp" && t[0] == "knapv" && len(t) == 3:
+		// value + validity only (limits beyond what the table model can execute)
+		W, err := strconv.Atoi(t[1])
+		brk, ok := parseBrk(t[2])
+		if err != nil || !ok {
+			return "bad-op"
+		}
+		sel := runKnap(items, W, brk, fl)
+		lg.keepItems(sel)
+		ids := idsOf(sel)
+		valid := "true"
+		tw, tv := 0, 0
+		if !validSelection(ids, len(items)) {
+			valid = "false:not-a-sub-selection:" + strings.ReplaceAll(fmt.Sprint(ids), " ", ",")
+		} else {
+			for _, id := range ids {
+				tw += items[id].w
+				tv += items[id].v
+			}
+			if tw > W {
+				valid = fmt.Sprintf("false:weight-%d-exceeds-limit", tw)
+			}
+		}
+		return fmt.Sprintf("value=%d valid=%s", tv, valid)
 	case kind == "dp" && t[0] == "solv" && len(t) == 5:
 		max, e1 := strconv.Atoi(t[1])
 		over, e2 := strconv.Atoi(t[2])
@@ -623,6 +660,61 @@ func implStep(kind string, items []item, keys []int, gc *graphCase, lg *ledger, 
 			return showCliques(cliques) + " caller-slices-modified R=" + fmt.Sprint(R) + " P=" + fmt.Sprint(P)
 		}
 		return showCliques(cliques)
+	}
+	return "bad-op"
+}
+
+// histStep: one operation of a `graphh` case on the single Graph value g.
+func histStep(g *algz.Graph[int], lg *ledger, t []string) string {
+	if len(t) == 0 {
+		return "bad-op"
+	}
+	num := func(i int) (int, bool) {
+		v, err := strconv.Atoi(t[i])
+		return v, err == nil && v >= 0
+	}
+	switch {
+	case t[0] == "init" && len(t) == 2:
+		c, ok := num(1)
+		if !ok {
+			return "bad-op"
+		}
+		g.Init(c)
+		return "ok"
+	case t[0] == "node" && len(t) == 2:
+		v, ok := num(1)
+		if !ok {
+			return "bad-op"
+		}
+		g.AddNode(v)
+		return "ok"
+	case (t[0] == "und" || t[0] == "arc") && len(t) == 3:
+		a, ok1 := num(1)
+		b, ok2 := num(2)
+		if !ok1 || !ok2 || a == b {
+			return "bad-op"
+		}
+		if t[0] == "und" {
+			g.AddUndirectedEdge(a, b)
+		} else {
+			g.AddEdge(a, b)
+		}
+		return "ok"
+	case t[0] == "len" && len(t) == 1:
+		return strconv.Itoa(g.Len())
+	case t[0] == "paths" && len(t) == 1:
+		// a policy that accepts nothing: GetPaths only walks the node list
+		ps := g.GetPaths(func([]int, int, algz.Relationship[int]) bool { return false })
+		if len(ps) != 0 {
+			return fmt.Sprintf("paths-returned-%d", len(ps))
+		}
+		return "ok"
+	case t[0] == "cliques" && len(t) == 1:
+		cs := g.GetMaximalCliques()
+		for _, c := range cs {
+			lg.keepInts(c)
+		}
+		return showCliques(canonCliques(cs))
 	}
 	return "bad-op"
 }
